@@ -175,20 +175,19 @@ def run(ctx, rep):
     stab = load_table("selectors.json")
     for p in stab["pairs"]:
         cur = (led["constants"][p["version_constant"][0]] << 8) | led["constants"][p["version_constant"][1]]
-        r = SEL.render(SEL.selector_map(ctx.F, p["reader"], p["quantity"], cur, True))
-        want = led.get("selectors", {}).get(p["id"])
+        r = SEL.selector_samples(ctx.F, p["reader"], p["quantity"], cur, True)
+        want = led.get("selector_samples", {}).get(p["id"])
         if want is None:
-            rep.broken("ledger has no selector table for " + p["id"])
+            rep.broken("ledger has no selector samples for " + p["id"])
             continue
-        for k, toks in sorted(want.items()):
-            rep.add(Obligation("LEDGER-SELECTORS", p["id"], "case `%s`" % k, "-",
-                               DISCHARGED if r.get(k) == toks else VIOLATION,
-                               detail="reader reads %s where %s (ledger %s)" % (r.get(k), k.replace("q", p["quantity"]), toks)))
-        for k in r:
-            if k not in want:
-                rep.add(Obligation("LEDGER-SELECTORS", p["id"], "case `%s`" % k, "-", VIOLATION,
-                                   detail="reader has a new case %s -> %s that is not in the ledger" % (k, r[k])))
-
+        if not (len({tuple(v) for v in r.values()}) > 1 and all(len(v) <= 2 for v in r.values())):
+            rep.note("selector %s: the reader's decision could not be evaluated on this tree (not compared)" % p["id"])
+            continue
+        for q, toks in sorted(want.items(), key=lambda kv: int(kv[0])):
+            got = r.get(int(q))
+            rep.add(Obligation("LEDGER-SELECTORS", p["id"], "%s = %s" % (p["quantity"], q), "-",
+                               DISCHARGED if got == toks else VIOLATION,
+                               detail="reader takes %s for %s = %s (ledger %s)" % (got, p["quantity"], q, toks)))
     # frozen reader records, one per released bitstream version
     from ..wiresig import run_wiresig
     rep.rules_text.append(
